@@ -665,7 +665,9 @@ impl Drv {
                         self.constants.push((rid, t, *v));
                     }
                 }
-                if (inst.is("Constant") || inst.is("SpecConstant")) && inst.rtype.map(|t| self.two_word_types.contains(&t)).unwrap_or(false) {
+                // any value whose result type is a declared 64-bit type is typed 64-bit for the parser (constants,
+                // undefs, copies, parameters, ... also those defined under an id reserved before the type existed)
+                if !inst.name().starts_with("Type") && inst.rtype.map(|t| self.two_word_types.contains(&t)).unwrap_or(false) && !self.typed64.contains(&rid) {
                     self.typed64.push(rid);
                 }
             }
